@@ -297,6 +297,10 @@ func (p *Prog) trueAlternatives(fn *ssa.Function, v ssa.Value, use *ssa.BasicBlo
 	ff := p.factsOf(fn)
 	switch x := v.(type) {
 	case *ssa.Phi:
+		// a flag built from boolean constants only (possibly carried around an inner loop)
+		if sets, okF := ff.FlagTrueFacts(v, use); okF {
+			return sets, true
+		}
 		var out []factSet
 		headers := map[*ssa.BasicBlock]bool{}
 		if use != nil {
